@@ -35,7 +35,48 @@ Fixpoint check_steps (fx : bool) (s : st) (steps : list (op * obs)) : bool :=
       obs_eqb (obs_of s' out) ob && check_steps fx s' r
   end.
 
-Definition check_case (c : vcase) : bool := check_steps true (mkst (c_items c) []) (c_steps c).
+(* ---- the hypotheses of the C10 theorems, evaluated on the states the implementation dumped --------
+   (reflection lemmas in ViewsSemProofs.v: all_inv_b s = true -> AllInv s, op_hyps_b ... -> the
+   hypotheses of the list/mapping equations) *)
+Definition view_inv_b (its : list elem) (v : view) : bool :=
+  list_eqb Z.eqb (v_idx v) (positions_from 0 (v_tags v) its).
+Definition all_inv_b (s : st) : bool := forallb (view_inv_b (items s)) (views s).
+
+Definition is_node (v : view) : bool := match v_kind v with KNode => true | _ => false end.
+Definition on_view (s : st) (k : nat) (f : view -> bool) : bool :=
+  match nth_error (views s) k with Some v => f v | None => false end.
+(* values given to a view are of the view's type; the mapping layer sits on node views *)
+Definition op_hyps_b (s : st) (o : op) : bool :=
+  match o with
+  | VSet k _ xs | VExtend k xs => on_view s k (fun v => forallb (matches (v_tags v)) xs)
+  | VInsert k _ x | VAppend k x => on_view s k (fun v => matches (v_tags v) x)
+  | MSet k _ _ x => on_view s k (fun v => matches (v_tags v) x && is_node v)
+  | MGet k _ _ | MContains k _ | MDel k _ | MPop k _ _ _ | MKeys k | MValues k _ | MItems k _ =>
+      on_view s k is_node
+  | _ => true
+  end.
+
+Fixpoint zip_idx (vs : list view) (idx : list (list Z)) : list view :=
+  match vs, idx with
+  | v :: vs', i :: idx' => mkview (v_tags v) (v_kind v) i :: zip_idx vs' idx'
+  | _, _ => []
+  end.
+(* the implementation's state as dumped (tags/kinds of the registered views from the history) *)
+Definition impl_state (model : st) (ob : obs) : st := mkst (o_items ob) (zip_idx (views model) (o_idx ob)).
+
+Fixpoint check_hyps_steps (s prev : st) (steps : list (op * obs)) : bool :=
+  match steps with
+  | [] => true
+  | (o, ob) :: r =>
+      let (s', _) := step true s o in
+      let cur := impl_state s' ob in
+      op_hyps_b prev o && all_inv_b cur && (length (views cur) =? length (views s'))%nat
+      && check_hyps_steps s' cur r
+  end.
+Definition check_hyps (c : vcase) : bool :=
+  check_hyps_steps (mkst (c_items c) []) (mkst (c_items c) []) (c_steps c).
+Definition check_corr (c : vcase) : bool := check_steps true (mkst (c_items c) []) (c_steps c).
+Definition check_case (c : vcase) : bool := check_corr c && check_hyps c.
 (* the code as found (before fixes/c10-*.patch); used only to classify a disagreement *)
 Definition check_case_asfound (c : vcase) : bool := check_steps false (mkst (c_items c) []) (c_steps c).
 
@@ -77,6 +118,7 @@ Definition sweep_slices (n : Z) (vals : list (option Z)) : list Z :=
 Definition int_row (n i : Z) : Z :=
   let l := zseq n in
   hash (encz (norm_index n i) ++ encz (list_get_int l i) ++ encl (list_set_int l i 100)
+        ++ encl (list_del_int l i)
         ++ [insert_pos n i] ++ list_insert l i 100
         ++ (match list_pop l i with Ok (x, r) => 0 :: x :: r | Err e => [exn_code e] end)
         ++ (match range_from_index (IInt i) n with
@@ -93,14 +135,18 @@ Fixpoint all_lists (k : nat) (vals : list Z) : list (list Z) :=
 Definition sweep_bisect (k : Z) (vals xs : list Z) : list Z :=
   flat_map (fun l => map (bisect_left l) xs) (all_lists (Z.to_nat k) vals).
 
-(* kind 0: slices, 1: ints, 2: bisect_left *)
+Definition sweep_remove (k : Z) (vals xs : list Z) : list Z :=
+  flat_map (fun l => flat_map (fun x => encl (list_remove Z.eqb l x)) xs) (all_lists (Z.to_nat k) vals).
+
+(* kind 0: slices, 1: ints, 2: bisect_left, 3: list.remove *)
 Record pcase := mkpcase { p_kind : Z; p_n : Z; p_optvals : list (option Z); p_vals : list Z;
                           p_xs : list Z; p_expected : list Z }.
 Definition check_pcase (c : pcase) : bool :=
   list_eqb Z.eqb
     (if p_kind c =? 0 then sweep_slices (p_n c) (p_optvals c)
      else if p_kind c =? 1 then sweep_ints (p_n c) (p_vals c)
-     else sweep_bisect (p_n c) (p_vals c) (p_xs c))
+     else if p_kind c =? 2 then sweep_bisect (p_n c) (p_vals c) (p_xs c)
+     else sweep_remove (p_n c) (p_vals c) (p_xs c))
     (p_expected c).
 (* positions at which a sweep differs (for the failure message) *)
 Fixpoint diff_positions (i : Z) (a b : list Z) : list Z :=
